@@ -130,6 +130,7 @@ func c02Exec(op string) string {
 	if goEmpty {
 		mxj.XmlGoEmptyElemSyntax()
 	}
+	bystanders()
 	m1, err := mxj.NewMapXml([]byte(doc), o.Cast)
 	if err != nil {
 		return "dec err " + xmlErrKind(err)
